@@ -57,6 +57,11 @@ def functional(qm, kind, x, w, b):
 
 
 def exec_case(case):
+    with M.repeatable_kernels(case["kind"] == "conv"):
+        return _exec_case(case)
+
+
+def _exec_case(case):
     out = Outcome()
     g = torch.Generator().manual_seed(case["seed"])
     kind = case["kind"]
@@ -205,6 +210,11 @@ def stale_cases(draw):
 
 
 def exec_stale(case):
+    with M.repeatable_kernels(case["kind"] == "conv"):
+        return _exec_stale(case)
+
+
+def _exec_stale(case):
     out = Outcome()
     g = torch.Generator().manual_seed(case["seed"])
     kind = case["kind"]
